@@ -1,0 +1,240 @@
+//go:build verif
+
+// Contracts for govc (contract-based deductive verification); comments only.
+package predicates
+
+// ---- C04: KAI's table of hard placement constraints (helper c04c) ----------------------------------------------------
+// "Every pod the scheduler binds or nominates goes to a node that ... matches the pod's node selector and required node
+// affinity, carries only ... taints the pod tolerates, and on which neither the pod's own required pod (anti-)affinity
+// nor the required anti-affinity of pods already placed there - including pods placed earlier in the same cycle - is
+// violated." The upstream kube-scheduler filters are library code (assumed); KAI's own logic is the table built here:
+// which upstream plugin object each entry is wired to, and for which pods an entry is declared required. The entries'
+// answers are named by k8s_internal.required / filterOf / preFilterOf (see k8s_internal's contract file).
+
+// the two constant "required" functions of the table
+//@ func predicateRequired
+//@   props C04
+//@   pure
+//@   ensures [alwaysRequired] result
+//@ end
+//@ func predicateNotRequired
+//@   props C04
+//@   pure
+//@   ensures [neverRequired] !result
+//@ end
+
+// stand-ins for a filter whose upstream plugin could not be constructed: accept everything
+//@ func emptyPredicatePreFilter$1
+//@   props C04
+//@   pure
+//@   nopanic off
+//@   note nopanic off: pod.Namespace / pod.Name are read for a log line
+//@   ensures [acceptsAll] result0 == nil && result1 == nil
+//@ end
+//@ func (*k8s.io/kubernetes/pkg/scheduler/framework.NodeInfo).Node
+//@   pure
+//@ end
+//@ func emptyPredicateFilter$1
+//@   props C04
+//@   pure
+//@   nopanic off
+//@   note nopanic off: pod / node names are read for a log line
+//@   ensures [acceptsAll] result0 && len(result1) == 0 && result2 == nil
+//@ end
+
+// ---- KAI's own predicates of the table ---------------------------------------------------------------------------------
+// (1) ConfigMap predicate (config_maps.go): a pod whose required config maps are missing from the snapshot is not placed.
+// cmKnown(p, ns, name): the predicate's index holds config map ns/name
+//@ define cmKnown(p *ConfigMapPredicate, ns string, name string) bool = p.configMapsNames[ns] != nil && p.configMapsNames[ns][name]
+
+// the index is exactly the snapshot: ns/name is known iff some config map of the snapshot has that namespace and name
+//@ func NewConfigMapPredicate
+//@   props C04
+//@   assume forall id in configmaps :: configmaps[id] != nil
+//@   note assumed data invariant of the snapshot: no nil config map entry
+//@   fresh
+//@   loop 1
+//@     invariant predicate != nil && fresh(predicate) && predicate.configMapsNames != nil && fresh(predicate.configMapsNames)
+//@     invariant forall ns in predicate.configMapsNames :: predicate.configMapsNames[ns] != nil && fresh(predicate.configMapsNames[ns])
+//@     invariant forall a in predicate.configMapsNames :: forall b in predicate.configMapsNames :: a != b ==> predicate.configMapsNames[a] != predicate.configMapsNames[b]
+//@     invariant forall m map[string]bool, k string :: old(allocated(m)) ==> (k in m) == old(k in m) && m[k] == old(m[k])
+//@     invariant forall id in visited :: id in configmaps
+//@     invariant forall id in visited :: cmKnown(predicate, configmaps[id].Namespace, configmaps[id].Name)
+//@     invariant forall ns string, name string :: cmKnown(predicate, ns, name) ==> (exists id in visited :: configmaps[id].Namespace == ns && configmaps[id].Name == name)
+//@   ensures [indexNonNil] result != nil && result.configMapsNames != nil
+//@   ensures [everySnapshotConfigMapKnown] forall id in configmaps :: cmKnown(result, configmaps[id].Namespace, configmaps[id].Name)
+//@   ensures [onlySnapshotConfigMapsKnown] forall ns string, name string :: cmKnown(result, ns, name) ==> (exists id in configmaps :: configmaps[id].Namespace == ns && configmaps[id].Name == name)
+//@ end
+
+//@ func (*ConfigMapPredicate).configMapExists
+//@   props C04
+//@   requires cmp != nil
+//@   pure
+//@   ensures [lookup] result == cmKnown(cmp, namespace, name)
+//@ end
+
+//@ func (*ConfigMapPredicate).isFilterRequired
+//@   props C04
+//@   pure
+//@   ensures [noFilterStage] !result
+//@ end
+
+// Which config maps a pod requires (volumes that are mounted, env / envFrom references, minus optional ones and the
+// shared-GPU config map) is computed by getAllRequiredConfigMapNames from the pod spec alone: nested loops over
+// containers / volumes with a closure appending to a captured slice and x/exp/maps.Keys (order unspecified). Its
+// answer is NAMED: cmReqCount(pod) names, cmReqAt(pod, i) the i-th of them (a function of the pod object; the pod spec
+// is immutable during a scheduling cycle).
+//@ declare cmReqCount(pod *v1.Pod) int
+//@ declare cmReqAt(pod *v1.Pod, i int) string
+//@ func getAllRequiredConfigMapNames
+//@   props C04
+//@   trusted
+//@   note naming device + read-only frame: the list of required config-map names of a pod is named by cmReqCount / cmReqAt; the body only reads the pod spec (closure over a captured slice, maps.Keys: outside what is worth modelling here)
+//@   pure
+//@   ensures len(result) == cmReqCount(pod) && cmReqCount(pod) >= 0
+//@   ensures forall i int :: 0 <= i && i < len(result) ==> result[i] == cmReqAt(pod, i)
+//@ end
+
+// the predicate is consulted exactly for the pods that require some config map
+//@ func (*ConfigMapPredicate).isPreFilterRequired
+//@   props C04
+//@   pure
+//@   ensures [requiredIffPodNeedsConfigMaps] result == (cmReqCount(pod) > 0)
+//@ end
+
+//@ func k8s.io/kube-scheduler/framework.NewStatus
+//@   fresh
+//@   note upstream constructor: returns a new Status object
+//@ end
+
+// a pod passes iff every config map it requires exists (in its own namespace) in the snapshot
+//@ func (*ConfigMapPredicate).PreFilter
+//@   props C04
+//@   requires cmp != nil && pod != nil
+//@   loop 1
+//@     invariant 0 - 1 <= rangeindex && rangeindex < len(requiredConfigMapNames)
+//@     invariant (len(missingConfigMaps) == 0) == (forall i int :: 0 <= i && i <= rangeindex ==> cmKnown(cmp, pod.Namespace, requiredConfigMapNames[i]))
+//@     decreases len(requiredConfigMapNames) - rangeindex
+//@   ensures [passesIffAllRequiredConfigMapsExist] (result1 == nil) == (forall i int :: 0 <= i && i < cmReqCount(pod) ==> cmKnown(cmp, pod.Namespace, cmReqAt(pod, i)))
+//@   ensures [noNodeRestriction] result0 == nil
+//@ end
+
+// (2) MaxNodePoolResources predicate (maxNodeResources.go): a pod that asks for more than the largest node offers is not
+// placed. What keeps this predicate from rejecting a pod that DOES fit some node (C05 "filters ... must only prune
+// hopeless cases") is that maxResources dominates every node's allocatable resources, component by component.
+//@ define dominates(m *resource_info.Resource, a *resource_info.Resource) bool = a.gpus <= m.gpus && a.milliCpu <= m.milliCpu && a.memory <= m.memory && (forall k in a.scalarResources :: k in m.scalarResources && a.scalarResources[k] <= m.scalarResources[k])
+
+//@ func NewMaxNodeResourcesPredicate
+//@   props C04
+//@   assume forall k in nodesMap :: nodesMap[k] != nil && nodesMap[k].Allocatable != nil
+//@   assume resource_info.claimsNonNil(resourceClaims)
+//@   note assumed data invariants of the snapshot (no nil node, every node has its Allocatable resource, no nil claim): the caller NewSessionPredicates reads them from ssn.ClusterInfo right after a cache call, nothing carries them there
+//@   assume forall k in nodesMap :: allocated(nodesMap[k].Allocatable) && allocated(nodesMap[k].Allocatable.scalarResources)
+//@   note heap closedness: the resource objects reachable from the node map exist before the call
+//@   fresh
+//@   loop 1
+//@     invariant predicate != nil && fresh(predicate) && predicate.maxResources != nil && fresh(predicate.maxResources)
+//@     invariant predicate.maxResources.scalarResources == nil || fresh(predicate.maxResources.scalarResources)
+//@     invariant forall r *resource_info.Resource :: old(allocated(r)) ==> r.gpus == old(r.gpus)
+//@     invariant forall b *resource_info.BaseResource :: old(allocated(b)) ==> b.milliCpu == old(b.milliCpu) && b.memory == old(b.memory) && b.scalarResources == old(b.scalarResources)
+//@     invariant forall m map[v1.ResourceName]int64, k v1.ResourceName :: old(allocated(m)) ==> (k in m) == old(k in m) && m[k] == old(m[k])
+//@     invariant forall k in visited :: k in nodesMap
+//@     invariant forall k in visited :: dominates(predicate.maxResources, nodesMap[k].Allocatable)
+//@   ensures [nonNil] result != nil && result.maxResources != nil
+//@   ensures [maxDominatesEveryNode] forall k in nodesMap :: dominates(result.maxResources, nodesMap[k].Allocatable)
+//@ end
+
+// a pod is rejected iff some component of its request exceeds the largest node: GPUs (device-plugin + DRA), CPU, memory,
+// or a scalar resource that no node offers in that amount. podInfo is the function's own local (pod_info.NewTaskInfo of
+// the pod), hence lemmas.
+//@ func (*MaxNodeResourcesPredicate).buildUnschedulableMessage
+//@   props C04
+//@   trusted
+//@   note message formatting only (strings.Builder, fmt.Sprintf, humanize, ResourceRequirements.DetailedString): library calls outside the subset; assumed read-only
+//@   pure
+//@ end
+//@ define scalarsWithin(req *resource_info.ResourceRequirements, m *resource_info.Resource) bool = forall k in req.scalarResources :: k in m.scalarResources && req.scalarResources[k] <= m.scalarResources[k]
+//@ func (*MaxNodeResourcesPredicate).PreFilter
+//@   props C04
+//@   requires mnr != nil && pod != nil && mnr.maxResources != nil
+//@   assume mnr.podsToClaimsMap != nil && resource_info.claimMapNonNil(mnr.resourceClaimsMap) && resource_info.podClaimsNonNil(mnr.podsToClaimsMap)
+//@   note assumed: the DRA claim indexes built by NewMaxNodeResourcesPredicate (ResourceClaimSliceToMap / CalcClaimsToPodsBaseMap [non-nil entries]) are intact
+//@   modifies *
+//@   note modifies *: GetDraPodClaims caches into the predicate's own pod->claims index; pod_info.NewTaskInfo builds a new PodInfo
+//@   nopanic off
+//@   loop 1
+//@     invariant forall k in visited :: k in mnr.maxResources.scalarResources && podInfo.ResReq.scalarResources[k] <= mnr.maxResources.scalarResources[k]
+//@   lemma [acceptedOnlyIfWithinLargestNode] result1 == nil ==> podGpuResources <= mnr.maxResources.gpus && podInfo.ResReq.milliCpu <= mnr.maxResources.milliCpu && podInfo.ResReq.memory <= mnr.maxResources.memory && scalarsWithin(podInfo.ResReq, mnr.maxResources)
+//@   lemma [rejectedOnlyIfOversized] result1 != nil ==> podGpuResources > mnr.maxResources.gpus || podInfo.ResReq.milliCpu > mnr.maxResources.milliCpu || podInfo.ResReq.memory > mnr.maxResources.memory || !scalarsWithin(podInfo.ResReq, mnr.maxResources)
+//@   ensures [noNodeRestriction] result0 == nil
+//@ end
+
+//@ func (*MaxNodeResourcesPredicate).isPreFilterRequired
+//@   props C04
+//@   pure
+//@   ensures [checkedForEveryPod] result
+//@ end
+//@ func (*MaxNodeResourcesPredicate).isFilterRequired
+//@   props C04
+//@   pure
+//@   ensures [noFilterStage] !result
+//@ end
+
+// the volume-binding filter wrapper (volume_binding.go) wraps the upstream VolumeBinding plugin object it is given
+//@ func NewVolumeBindingFilter
+//@   props C04
+//@   trust [namesWrappedPlugin] result != nil && k8s_internal.filterOf(result, plugin)
+//@   nopanic off
+//@   note naming device + nopanic off: the closure returned wraps FitPredicateConverter(ssn, plugin.(*VolumeBinding)); the type assertion is the caller's matter (NewSessionPredicates passes the object the cache constructed as VolumeBinding)
+//@ end
+
+// the wrapper hands the upstream verdict through unchanged, except that - only when CSI storage scheduling is switched
+// off for capacity (ignoreInsufficientResources) - an upstream ERROR may be turned into acceptance (the code compares
+// the message with ErrReasonNotEnoughSpace); it never rejects what the upstream filter accepts
+//@ func NewVolumeBindingFilter$1
+//@   props C04
+//@   pure
+//@   nopanic off
+//@   note nopanic off: filterFunc is the non-nil closure FitPredicateConverter returned (captured variable, not visible as such here)
+//@   ensures [verdictHandedThrough] !ignoreInsufficientResources ==> result0 == k8s_internal.filterFits(filterFunc, pod, nodeInfo) && (result2 != nil) == k8s_internal.filterFails(filterFunc, pod, nodeInfo)
+//@   ensures [noErrorStaysUntouched] !k8s_internal.filterFails(filterFunc, pod, nodeInfo) ==> result0 == k8s_internal.filterFits(filterFunc, pod, nodeInfo) && result2 == nil
+//@   ensures [acceptanceNeedsUpstreamOrSwitch] result0 ==> k8s_internal.filterFits(filterFunc, pod, nodeInfo) || (ignoreInsufficientResources && k8s_internal.filterFails(filterFunc, pod, nodeInfo))
+//@ end
+
+//@ define alwaysReq(f k8s_internal.FitPredicateRequired) bool = forall p *v1.Pod :: k8s_internal.required(f, p)
+//@ define neverReq(f k8s_internal.FitPredicateRequired) bool = forall p *v1.Pod :: !k8s_internal.required(f, p)
+
+//@ func NewSessionPredicates
+//@   props C04
+//@   requires ssn != nil
+//@   nopanic off
+//@   note nopanic off: ssn.Cache / ssn.ClusterInfo non-nil and the dynamic types of the plugin objects handed out by the cache (type assertions) are the session's / cache's matter
+//@   assume forall p *v1.Pod :: k8s_internal.required(predicateRequired, p) && !k8s_internal.required(predicateNotRequired, p)
+//@   note the assume LINKS the function values predicateRequired / predicateNotRequired to their verified contracts ([alwaysRequired] / [neverRequired]): k8s_internal.required(f, pod) is by definition (type:FitPredicateRequired) the answer f(pod)
+//@   modifies *
+//@   # the table has an entry for every hard constraint
+//@   ensures [hasHostPorts] "PodFitsHostPorts" in result
+//@   ensures [hasTaints] "PodToleratesNodeTaints" in result
+//@   ensures [hasNodeAffinity] "NodeAffinity" in result
+//@   ensures [hasPodAffinity] "PodAffinity" in result
+//@   ensures [hasVolumeBinding] "VolumeBinding" in result
+//@   ensures [hasDynamicResources] "DynamicResources" in result
+//@   ensures [hasMaxNodePoolResources] "MaxNodePoolResources" in result
+//@   ensures [hasConfigMap] "ConfigMap" in result
+//@   # required for EVERY pod (a pod without constraints of its own can still violate a constraint of the node or of a pod already there)
+//@   ensures [taintsCheckedForEveryPod] alwaysReq(result["PodToleratesNodeTaints"].IsFilterRequired)
+//@   ensures [nodeAffinityCheckedForEveryPod] alwaysReq(result["NodeAffinity"].IsPreFilterRequired) && alwaysReq(result["NodeAffinity"].IsFilterRequired)
+//@   ensures [podAffinityCheckedForEveryPod] alwaysReq(result["PodAffinity"].IsPreFilterRequired) && alwaysReq(result["PodAffinity"].IsFilterRequired)
+//@   ensures [hostPortsCheckedForEveryPod] alwaysReq(result["PodFitsHostPorts"].IsPreFilterRequired) && alwaysReq(result["PodFitsHostPorts"].IsFilterRequired)
+//@   ensures [volumeBindingCheckedForEveryPod] alwaysReq(result["VolumeBinding"].IsPreFilterRequired) && alwaysReq(result["VolumeBinding"].IsFilterRequired)
+//@   ensures [dynamicResourcesCheckedForEveryPod] alwaysReq(result["DynamicResources"].IsPreFilterRequired) && alwaysReq(result["DynamicResources"].IsFilterRequired)
+//@   # each entry is wired to ITS upstream plugin object (the one the cache constructed under that name)
+//@   ensures [taintsWired] initiatedPlugins.TaintToleration != nil ==> k8s_internal.filterOf(result["PodToleratesNodeTaints"].Filter, initiatedPlugins.TaintToleration)
+//@   ensures [nodeAffinityWired] initiatedPlugins.NodeAffinity != nil ==> k8s_internal.filterOf(result["NodeAffinity"].Filter, initiatedPlugins.NodeAffinity) && k8s_internal.preFilterOf(result["NodeAffinity"].PreFilter, initiatedPlugins.NodeAffinity)
+//@   ensures [podAffinityWired] initiatedPlugins.PodAffinity != nil ==> k8s_internal.filterOf(result["PodAffinity"].Filter, initiatedPlugins.PodAffinity) && k8s_internal.preFilterOf(result["PodAffinity"].PreFilter, initiatedPlugins.PodAffinity)
+//@   ensures [hostPortsWired] initiatedPlugins.NodePorts != nil ==> k8s_internal.filterOf(result["PodFitsHostPorts"].Filter, initiatedPlugins.NodePorts) && k8s_internal.preFilterOf(result["PodFitsHostPorts"].PreFilter, initiatedPlugins.NodePorts)
+//@   ensures [volumeBindingWired] initiatedPlugins.VolumeBinding != nil ==> k8s_internal.filterOf(result["VolumeBinding"].Filter, initiatedPlugins.VolumeBinding) && k8s_internal.preFilterOf(result["VolumeBinding"].PreFilter, initiatedPlugins.VolumeBinding)
+//@   ensures [dynamicResourcesWired] initiatedPlugins.DynamicResources != nil ==> k8s_internal.filterOf(result["DynamicResources"].Filter, initiatedPlugins.DynamicResources) && k8s_internal.preFilterOf(result["DynamicResources"].PreFilter, initiatedPlugins.DynamicResources)
+//@   # the table can be evaluated (no nil function is called by evaluateTaskOnPrePredicate)
+//@   ensures [tableEvaluable] forall n in result :: result[n].IsPreFilterRequired != nil && result[n].IsFilterRequired != nil && (result[n].PreFilter != nil || neverReq(result[n].IsPreFilterRequired)) && (result[n].Filter != nil || n == "MaxNodePoolResources" || n == "ConfigMap")
+//@ end
